@@ -33,9 +33,14 @@ func verifStubProxy(p *httputil.ReverseProxy, rw http.ResponseWriter, req *http.
 	}
 	switch kind {
 	case verifOutStatus:
+		// a body of unknown length is streamed: ReverseProxy writes every chunk it reads and flushes
+		// after each one (flush interval -1 for ContentLength -1)
 		rw.Header().Set("Content-Type", "text/plain")
 		rw.WriteHeader(status)
-		rw.Write([]byte("ok"))
+		rw.Write([]byte("o"))
+		http.NewResponseController(rw).Flush()
+		rw.Write([]byte("k"))
+		http.NewResponseController(rw).Flush()
 	case verifOutRefused:
 		rw.WriteHeader(http.StatusBadGateway)
 	case verifOutAbort:
